@@ -329,6 +329,44 @@ func checkC16(c *ev.Ctx) {
 			c.Count("control_illegal", 1)
 		}
 	})
+	// chunks at the format's size limits: a compressed chunk of exactly 65536 bytes (and a few
+	// bytes less), which this library's writer never produces, followed by further chunks
+	targets := []int{65536, 65535, 65534, 65533, 65530, 65280, 65537 - 256}
+	par(len(targets), func(i int) {
+		id := fmt.Sprintf("full%d", targets[i])
+		noteCase(id)
+		if !want(c, id) {
+			return
+		}
+		var stream, content []byte
+		ok := false
+		for try := 0; try < 40 && !ok; try++ {
+			stream, content, ok = ref.GenFullChunk(prng.New(c.Seed, 19, uint64(i), uint64(try)), targets[i], 4096)
+		}
+		if !ok {
+			c.Inconclusive(fmt.Sprintf("no chunk of exactly %d compressed bytes could be generated", targets[i]))
+			return
+		}
+		if ro, _, rerr := ref.DecodeLZMA2(stream, 4096, false, 0); rerr != nil || !bytes.Equal(ro, content) {
+			c.Count("generator_rejected", 1)
+			c.Inconclusive(fmt.Sprintf("generated full-chunk stream %s rejected by the reference: %v", id, rerr))
+			return
+		}
+		if lzc.Available() {
+			if res := lzc.DecodeRawLZMA2(stream, 4096, 0); !res.OK() || !bytes.Equal(res.Out, content) {
+				c.Inconclusive(fmt.Sprintf("liblzma disagrees on generated full-chunk stream %s: %v", id, res.Err()))
+				return
+			}
+			c.Count("reference_agreement", 1)
+		}
+		out, err, pn := readLZMA2(stream, 4096)
+		c.Eval("full-chunk:"+id, true)
+		c.Count("full_compressed_chunks", 1)
+		if pn != nil || err != nil || !bytes.Equal(out, content) {
+			c.Violation("legal-sequence-misdecoded", map[string]any{"case_id": id, "stream_len": len(stream), "content_len": len(content), "delivered": len(out), "error": fmt.Sprint(err),
+				"what": fmt.Sprintf("legal sequence [LZMA chunk of exactly %d compressed bytes, raw, LZMA, end]: reader returned %d of %d bytes, error %v, panic %v", targets[i], len(out), len(content), err, pn)})
+		}
+	})
 	// writer side
 	par(nwriter, func(i int) {
 		id := fmt.Sprintf("w%d", i)
